@@ -22,8 +22,8 @@ CLAIM = dict(
          "by TLC on every run as an anti-vacuity test. Real code: every fault-free configuration and 3 (thorough 24) "
          "configurations per (fault, predicted outcome) class are executed in four builds - std-linked with `start`, "
          "std-linked without `start`, no-libc executable started by tiny-std's own _start (real Environment::Inherit), "
-         "no-libc no-alloc executable using the free function process::spawn::<N> - quick ~3800 runs, thorough ~57000, "
-         "with the failure injected by ptrace in the caller or in the forked child; 1 run in 5 waits with a "
+         "no-libc no-alloc executable using the free function process::spawn::<N> - quick ~3800 runs, thorough ~45000, "
+         "with the failure injected by ptrace in the caller or in the forked child; 1 run in 10 waits with a "
          "Child::try_wait loop, helpers end by exit 0/3/7 or SIGKILL/SIGTERM; each trace is accepted or rejected by TLC at the property level and "
          "its per-process call sequence / result is compared with the model's prediction.",
     note="Trusted: TLC, SpawnAbs.tla, the tracer's view of the process tree (ptrace stops; per-task order is causal, "
